@@ -548,6 +548,22 @@ func (g *G) ofType(typ byte, cfg *Cfg) *ref.AP {
 			a.Password = []byte{}
 			a.ConnFlags |= ref.CFPassword
 		}
+		if len(a.ClientID) > 0 && t.Bool(1, 10) {
+			// credentials as deployments really have them: the user name is the client id
+			// (device identity used twice), sometimes the password too
+			a.Username = append([]byte{}, a.ClientID...)
+			a.ConnFlags |= ref.CFUsername
+			if t.Bool(1, 3) {
+				a.Password = append([]byte{}, a.ClientID...)
+				a.ConnFlags |= ref.CFPassword
+			}
+			if a.Will != nil && t.Bool(1, 3) {
+				a.Will.Topic = append([]byte("clients/"), a.ClientID...)
+				if len(a.Will.Topic) > 65535 {
+					a.Will.Topic = a.Will.Topic[:65535]
+				}
+			}
+		}
 		a.Props = g.props(ref.Connect, cfg)
 	case ref.ConnAck:
 		if t.Bool(1, 2) {
